@@ -27,6 +27,12 @@ def check(run):
     rng = run.rng
     nsrv = 8 if run.tier == "quick" else 40
     servers = [{"chainlen": rng.choice([1, 1, 2, 3]), "trusted": k % 4 == 0} for k in range(nsrv)]
+    # impostors: a server presenting a certificate with the SAME name and serial number as an untrusted server's, but its own key
+    genuine = [k for k, sv in enumerate(servers) if not sv["trusted"] and sv["chainlen"] == 1][:3]
+    impostors = {}
+    for g in genuine:
+        impostors[g] = len(servers)
+        servers.append({"chainlen": 1, "trusted": False, "impostor_of": g})
     header = {"servers": servers}
     env = dict(os.environ, SSL_CERT_FILE=os.path.join(d, "trusted.pem"), SSL_CERT_DIR=d)
     kinds = ["own0", "own0-prefixed", "other", "empty", "prefix-only", "not-b64", "short", "nopad", "crlf", "own-last", "own-mid", "garbage-after", "urlsafe", "hex", "own0", "empty"]
@@ -40,7 +46,11 @@ def check(run):
         for outer, inner in (("other", "own0"), ("empty", "own0"), ("own0", "other"), ("own0", "empty"), ("other", "other")):
             calls.append({"srv": sv, "kind": outer, "nested": {"srv": sv, "kind": inner}})
             calls.append({"srv": sv, "kind": outer, "nested": {"srv": (sv + 1) % nsrv, "kind": "own0"}})
-    inputs = [dict({"i": k, "srv": c["srv"], "kind": c["kind"]}, **({"nested": dict(c["nested"], i=100000 + k)} if "nested" in c else {})) for k, c in enumerate(calls)]
+    # the genuine server first (so that whatever a call may remember about its certificate is remembered), then its impostor with the GENUINE pin
+    for g, imp in impostors.items():
+        calls += [{"srv": g, "kind": "own0"}, {"srv": imp, "kind": "pin-of", "of": g}, {"srv": imp, "kind": "own0"}, {"srv": g, "kind": "pin-of", "of": imp},
+                  {"srv": g, "kind": "own0-prefixed"}, {"srv": imp, "kind": "pin-of", "of": g}]
+    inputs = [dict({"i": k, "srv": c["srv"], "kind": c["kind"]}, **dict(({"nested": dict(c["nested"], i=100000 + k)} if "nested" in c else {}), **({"of": c["of"]} if "of" in c else {}))) for k, c in enumerate(calls)]
     res, err = vlib.run_drv(drv, "pin", [header] + inputs, args=[d], env=env, timeout=120)
     if err or not res or len(res) != len(inputs) + 1:
         run.oblige("pin driver ran all calls", False, "%s (%d results)" % (err, len(res or [])))
@@ -66,7 +76,8 @@ def check(run):
                       "leaf issued by a CA the process trusts), mixing: the server's own pin with and without sha256//, the pin of the last / a middle "
                       "certificate of the chain, another server's pin, no fingerprint, the bare prefix, non-base64, 31 bytes, missing padding, embedded "
                       "CR/LF, garbage after the padding, URL-safe alphabet, hex; SHA-256 and base64 of the presented keys are recomputed inside Coq; "
-                      "directed sequences on each server (wrong pin after a right one, no pin after a pinned call); overlapping calls (a second call, "
+                      "directed sequences on each server (wrong pin after a right one, no pin after a pinned call); impostors presenting the genuine "
+                      "certificate's name and serial with another key, called with the genuine pin right after the genuine server; overlapping calls (a second call, "
                       "with another pin or none, to the same or another server, runs to completion while the first is between configuring its client "
                       "and connecting - each is judged on its own configuration); "
                       "after every call http.DefaultClient and http.DefaultTransport are compared with their initial state" % nsrv,
